@@ -65,3 +65,55 @@ package git
 //@ ensures !IsBraceMove(changedFile) ==> result0 == changedFile && result1 == changedFile && result2 == changedFile
 //@ ensures IsBraceMove(changedFile) ==> result1 == Glue(MvGroup(changedFile, 1), MvGroup(changedFile, 2), MvGroup(changedFile, 4))
 //@ ensures IsBraceMove(changedFile) ==> result2 == Glue(MvGroup(changedFile, 1), MvGroup(changedFile, 3), MvGroup(changedFile, 4)) && result0 == result2
+
+// ---- C14: parsing `git log --pretty=format:[%h] %aN %ad %s --date=short --numstat --reverse --summary`
+// Line classes, by the expressions the statement's log format implies (the literals are part of the contract: changing
+// an expression in the code without changing it here fails the obligations that mention it).
+//@ spec HasRev(t string) bool := ReMatch(t, "^\\[([\\d|a-f]{5,12})\\]")
+//@ spec IsNumstat(t string) bool := ReMatch(t, "^([\\d-]+)[\\t\\s]+([\\d-]+)[\\t\\s]+(.*)")
+//@ spec IsMode(t string) bool := ReMatch(t, "\\s(\\w{1,6})\\s(mode 100(\\d){3})?\\s?(.*)(\\s\\(\\d{2}%\\))?")
+//@ spec RevAll(t string) string := ReGroup(t, "^\\[([\\d|a-f]{5,12})\\]", 0)
+//@ spec RevId(t string) string := ReGroup(t, "^\\[([\\d|a-f]{5,12})\\]", 1)
+//@ spec AuthorPart(t string) string := ReGroup(After(t, RevAll(t)), "(.*?)\\s\\d{4}-\\d{2}-\\d{2}", 1)
+//@ spec AfterAuthor(t string) string := After(After(t, RevAll(t)), AuthorPart(t))
+//@ spec DatePart(t string) string := ReGroup(AfterAuthor(t), "\\d{4}-\\d{2}-\\d{2}", 0)
+//@ spec RawMsg(t string) string := After(AfterAuthor(t), DatePart(t))
+//@ spec IsHeader(t string) bool := HasRev(t) && ReMatch(After(t, RevAll(t)), "(.*?)\\s\\d{4}-\\d{2}-\\d{2}") && AuthorPart(t) != "" && ReMatch(AfterAuthor(t), "\\d{4}-\\d{2}-\\d{2}")
+//@ spec NumGroup(t string, i int) string := ReGroup(t, "^([\\d-]+)[\\t\\s]+([\\d-]+)[\\t\\s]+(.*)", i)
+
+//@ func ParseLog
+//@ requires currentFileChangeMap != nil
+//@ modifies currentCommit, currentFileChangeMap, commits, currentFileChanges
+//@ ensures currentFileChangeMap != nil
+// a header line starts a new current commit with the hash, author, date and subject of that line
+//@ ensures IsHeader(text) ==> currentCommit.Rev == RevId(text) && currentCommit.Author == AuthorPart(text)[1:] && currentCommit.Date == DatePart(text) &&
+//@    currentCommit.Message == (len(RawMsg(text)) > 1 ? RawMsg(text)[1:] : RawMsg(text)) && len(currentCommit.Changes) == 0
+//@ ensures IsHeader(text) ==> commits == old(commits) && currentFileChangeMap == old(currentFileChangeMap)
+// a numstat line adds one change (added, deleted, path) to the commit being read
+//@ ensures !IsHeader(text) && IsNumstat(text) ==> (NumGroup(text, 3) in currentFileChangeMap) &&
+//@    currentFileChangeMap[NumGroup(text, 3)].Added == Atoi(NumGroup(text, 1)) && currentFileChangeMap[NumGroup(text, 3)].Deleted == Atoi(NumGroup(text, 2)) &&
+//@    currentFileChangeMap[NumGroup(text, 3)].File == NumGroup(text, 3) && currentFileChangeMap[NumGroup(text, 3)].Mode == ""
+//@ ensures !IsHeader(text) && IsNumstat(text) ==> currentCommit == old(currentCommit) && commits == old(commits) &&
+//@    (forall k string :: {k in currentFileChangeMap} k != NumGroup(text, 3) ==> ((k in currentFileChangeMap) <==> (k in old(currentFileChangeMap))) && currentFileChangeMap[k] == old(currentFileChangeMap)[k])
+// any other line ends the block: the commit being read is appended exactly once, with as many changes as were collected
+//@ ensures !IsHeader(text) && !IsNumstat(text) && !IsMode(text) && old(currentCommit.Rev) != "" ==> Extends(commits, old(commits), 1) &&
+//@    commits[len(old(commits))].Rev == old(currentCommit.Rev) && commits[len(old(commits))].Author == old(currentCommit.Author) &&
+//@    commits[len(old(commits))].Date == old(currentCommit.Date) && commits[len(old(commits))].Message == old(currentCommit.Message) &&
+//@    len(commits[len(old(commits))].Changes) >= len(old(currentFileChanges)) && currentCommit.Rev == ""
+//@ ensures !IsHeader(text) && !IsNumstat(text) && !IsMode(text) && old(currentCommit.Rev) == "" ==> commits == old(commits) && currentCommit == old(currentCommit)
+//@ loop 1 invariant len(currentFileChanges) >= len(old(currentFileChanges))
+// proof steps: the running text equals the statement-level decomposition of the header
+//@ assert after FindStringSubmatch#2 id != nil && str == After(text, RevAll(text)) && id[1] == RevId(text)
+//@ assert after FindStringSubmatch#3 str == AfterAuthor(text) && auth[1] == AuthorPart(text)
+
+//@ func BuildMessageByInput
+//@ modifies currentCommit, currentFileChangeMap, commits, currentFileChanges
+// parsing depends on the input only: no state of an earlier call survives
+//@ assert after Split#1 currentCommit.Rev == "" && len(commits) == 0 && len(currentFileChanges) == 0 && currentFileChangeMap != nil && len(currentFileChangeMap) == 0
+//@ loop 1 invariant currentFileChangeMap != nil
+
+//@ func buildChangeMode
+//@ requires currentFileChangeMap != nil
+//@ modifies currentFileChangeMap, currentFileChanges
+//@ ensures currentFileChangeMap != nil
+//@ ensures len(currentFileChanges) >= len(old(currentFileChanges))
